@@ -384,11 +384,50 @@ func checkGaugeKey(c *Ctx, r *Report) {
 			if !mentionsField(cc.Args[0], "internal/adapter/stats", "Collector", "endpoints", 3) {
 				return
 			}
-			if ld, ok := resolveCell(cc.Args[1]).(*ssa.UnOp); ok {
-				if fa, ok := ld.X.(*ssa.FieldAddr); ok {
-					if o, fld, _ := fieldOf(fa); isNamed(o, pkgDomain, "Endpoint") {
-						wField, wPos = fld, in.Pos()
+			// the key is a field of the endpoint, loaded here or in the callers that pass it down as a string (`getOrInit(
+			// endpoint.URLString, endpoint.Name, now)`); when callers disagree the one that counts is RecordConnection's, the
+			// writer of the gauge
+			type keyAt struct {
+				fld  *types.Var
+				root *ssa.Function
+			}
+			var found []keyAt
+			var follow func(v ssa.Value, d int)
+			follow = func(v ssa.Value, d int) {
+				v = resolveCell(stripConv(v))
+				if ld, ok := v.(*ssa.UnOp); ok {
+					if fa, ok := ld.X.(*ssa.FieldAddr); ok {
+						if o, fld, _ := fieldOf(fa); isNamed(o, pkgDomain, "Endpoint") {
+							found = append(found, keyAt{fld, ld.Parent()})
+						}
 					}
+					return
+				}
+				p, ok := v.(*ssa.Parameter)
+				if !ok || d == 0 {
+					return
+				}
+				pi := -1
+				for i, q := range p.Parent().Params {
+					if q == p {
+						pi = i
+					}
+				}
+				for _, g := range c.Funcs {
+					if g.Pkg != p.Parent().Pkg {
+						continue
+					}
+					eachInstr(g, func(in2 ssa.Instruction) {
+						if c2 := getCall(in2); c2 != nil && c2.StaticCallee() == p.Parent() && pi >= 0 && pi < len(c2.Args) {
+							follow(c2.Args[pi], d-1)
+						}
+					})
+				}
+			}
+			follow(cc.Args[1], 3)
+			for _, k := range found {
+				if wField == nil || k.root.Name() == "RecordConnection" {
+					wField, wPos = k.fld, in.Pos()
 				}
 			}
 		})
